@@ -9,6 +9,11 @@ pub fn peer_ufrag_from_binding_request(bytes: &[u8]) -> Option<String> {
     crate::transports::ice::shared_tcp::peer_ufrag_from_binding_request(bytes)
 }
 
+/// C07: `read_tcp_framed_packet` of the shared passive TCP listener (first frame of an inbound connection).
+pub async fn read_tcp_framed_packet(stream: &mut tokio::net::TcpStream) -> anyhow::Result<Vec<u8>> {
+    crate::transports::ice::shared_tcp::verif_read_tcp_framed_packet(stream).await
+}
+
 /// C07: handshake-context snapshots published by the DTLS run loop after every datagram it handled
 /// (`recv_message_seq, message_seq, incomplete_handshake.len(), incomplete_msg_seq, handshake_messages.len(),
 /// post_hvr, handler-error flag`), keyed by `DtlsTransport::verif_instance_id()`. The context is a local of the
